@@ -99,9 +99,23 @@ func vfC13Gen(rt *rapid.T) vfC13Case {
 			if kind == Cosine && vfIsZero(v) {
 				return vfVecOp{Op: "add_bad", ID: vfGenFreshID(rt, used), Vec: v}
 			}
-			id := vfGenFreshID(rt, used)
+			id := uint32(0)
+			if len(removed) > 0 && rapid.IntRange(0, 4).Draw(rt, "re_add_removed_id") == 0 {
+				// update = remove + add: the id of a removed vector comes back with other content
+				j := rapid.IntRange(0, len(removed)-1).Draw(rt, "re_add_idx")
+				id = removed[j]
+				removed = append(removed[:j:j], removed[j+1:]...)
+				for _, l := range live {
+					if l == id {
+						id = 0 // (listed twice in removed: it is live again already)
+					}
+				}
+			}
+			if id == 0 {
+				id = vfGenFreshID(rt, used)
+				all = append(all, id)
+			}
 			live = append(live, id)
-			all = append(all, id)
 			vecs[id] = v
 			return vfVecOp{Op: "add", ID: id, Vec: v, TrainRef: trainRef}
 		case w < 58:
@@ -324,8 +338,13 @@ func vfC13Run(c vfC13Case, ctx *vfCtx) *vfViolation {
 			if kind == Cosine && vfIsZero(op.Vec) || len(op.Vec) != c.Dim {
 				continue
 			}
-			if _, dup := m.live[op.ID]; dup || m.resident[op.ID] || op.ID == 0 {
+			if _, dup := m.live[op.ID]; dup || op.ID == 0 {
 				continue
+			}
+			if m.resident[op.ID] {
+				// re-add of a removed, not yet flushed id: the stale entry has to go, wherever it sits
+				delete(m.resident, op.ID)
+				ctx.Class("re_add_of_a_removed_id")
 			}
 			payload := vfCloneF32(op.Vec)
 			if op.TrainRef > 0 && op.TrainRef <= len(train) && vfBitsEqual(train[op.TrainRef-1].Vector(), op.Vec) {
